@@ -11,11 +11,12 @@ from plasTeX.Filenames import Filenames
 def subst(alt, ns, num, charsub):
     """Candidate name of one alternative, or None if a variable is unbound.  Returns (name, uses_num)."""
     ns = dict(ns)
-    for k, v in list(ns.items()):
+
+    def clean(v):
         if charsub:
             for ch in charsub[0]:
                 v = v.replace(ch, charsub[1])
-        ns[k] = v
+        return v
     uses_num = False
     out = ''
     pos = 0
@@ -31,9 +32,10 @@ def subst(alt, ns, num, charsub):
             return None, uses_num
         val = ns[key]
         if fmt:
-            # limited to its first n words (an empty or blank value has none: it stays empty)
+            # limited to its first n words (an empty or blank value has none: it stays empty) ...
             val = ' '.join(val.split()[:int(fmt)])
-        out += val
+        # ... and then the forbidden characters are replaced (a blank may be one of them: the limit must count the words first)
+        out += clean(val)
     out += alt[pos:]
     return out, uses_num
 
@@ -131,7 +133,7 @@ VALS = ['a', 'b', 'intro duction here', 'a:b', 'x y', '']
 
 
 def gen_case(rng):
-    static = rng.sample(['index', 'toc.html', 'front'], rng.randrange(0, 3))
+    static = rng.sample(['index', 'toc.html', 'front', '${title.2}-s', 'st-$id'], rng.randrange(0, 3))
     wild = rng.sample(ALTS, rng.randrange(1, 4))
     reqs = []
     for _ in range(rng.randrange(1, 8)):
@@ -141,7 +143,7 @@ def gen_case(rng):
         if rng.random() < 0.5:
             b['title'] = rng.choice(VALS)
         reqs.append(b)
-    return dict(static=static, wild=wild, requests=reqs, charsub=rng.choice([None, [':', '_'], [': ', '-']]), ext='.html',
+    return dict(static=static, wild=wild, requests=reqs, charsub=rng.choice([None, [':', '_'], [': ', '-'], [' :/', '-']]), ext='.html',
                 reserved=rng.sample(['index.html', 'a.html', 'sect001.html'], rng.randrange(0, 2)),
                 prefix=rng.choice(['', '', 'book-', 'p_']), suffix=rng.choice(['', '', '.htm', '-x']))
 
